@@ -29,10 +29,22 @@ type RepoCase struct {
 	Auth     bool     `json:"authClient"`
 	Fails    []string `json:"fails"` // answers to the first content PUTs: 503, 401, 429, timeout
 	Size     int      `json:"size"`
+	// Docker: the manifest has the Docker v2 media type (no subject handling, the
+	// caller's reader goes to the PUT as it is)
+	Docker bool `json:"docker,omitempty"`
+	// RefCap: 0 capability unknown, 1 SetReferrersCapability(true), 2 (false)
+	RefCap int `json:"refCap,omitempty"`
+	// ByRef: PushReference with a tag instead of Push
+	ByRef bool `json:"byRef,omitempty"`
 }
 
 func genRepo(t *rapid.T) RepoCase {
 	c := RepoCase{Manifest: rapid.Bool().Draw(t, "manifest"), Reader: rapid.IntRange(0, 2).Draw(t, "reader"), Auth: rapid.Bool().Draw(t, "auth"), Size: rapid.SampledFrom([]int{1, 50, 5000}).Draw(t, "size")}
+	if c.Manifest {
+		c.Docker = rapid.Bool().Draw(t, "docker")
+		c.RefCap = rapid.IntRange(0, 2).Draw(t, "refCap")
+		c.ByRef = rapid.Bool().Draw(t, "byRef")
+	}
 	n := rapid.IntRange(0, 3).Draw(t, "nFails")
 	for i := 0; i < n; i++ {
 		c.Fails = append(c.Fails, rapid.SampledFrom([]string{"503", "401", "429", "timeout", "500"}).Draw(t, "fail"))
@@ -47,8 +59,15 @@ func runRepo(c RepoCase) (res vt.Result, fail *vt.Fail) {
 	if c.Manifest {
 		m := ocispec.Manifest{MediaType: gen.MTImage, Config: ocispec.Descriptor{MediaType: gen.MTConfig, Digest: digest.FromBytes([]byte("{}")), Size: 2}, Layers: []ocispec.Descriptor{}, Annotations: map[string]string{"pad": strings.Repeat("x", c.Size)}}
 		m.SchemaVersion = 2
-		body, _ = json.Marshal(m)
 		mt = gen.MTImage
+		if c.Docker {
+			mt = "application/vnd.docker.distribution.manifest.v2+json"
+			m.MediaType = mt
+			m.Config.MediaType = "application/vnd.docker.container.image.v1+json"
+			m.Annotations = nil
+			m.Layers = []ocispec.Descriptor{{MediaType: "application/vnd.docker.image.rootfs.diff.tar.gzip", Digest: digest.FromBytes([]byte(strings.Repeat("x", c.Size))), Size: int64(c.Size)}}
+		}
+		body, _ = json.Marshal(m)
 	} else {
 		body = gen.BlobBytes(1, c.Size)
 	}
@@ -105,9 +124,20 @@ func runRepo(c RepoCase) (res vt.Result, fail *vt.Fail) {
 	case 2:
 		rd = io.NopCloser(bytes.NewReader(body))
 	}
-	err := repo.Push(ctx, desc, rd)
+	switch c.RefCap {
+	case 1:
+		repo.SetReferrersCapability(true)
+	case 2:
+		repo.SetReferrersCapability(false)
+	}
+	var err error
+	if c.ByRef {
+		err = repo.PushReference(ctx, desc, rd, "v1")
+	} else {
+		err = repo.Push(ctx, desc, rd)
+	}
 	res.NonTrivial = len(puts) >= 2
-	res.Classes = []string{fmt.Sprintf("reader-%d", c.Reader), fmt.Sprintf("auth-%v", c.Auth), fmt.Sprintf("manifest-%v", c.Manifest)}
+	res.Classes = []string{fmt.Sprintf("reader-%d", c.Reader), fmt.Sprintf("auth-%v", c.Auth), fmt.Sprintf("manifest-%v", c.Manifest), fmt.Sprintf("docker-%v-refcap-%d-byref-%v", c.Docker, c.RefCap, c.ByRef)}
 	complete := 0
 	for i, p := range puts {
 		if len(p.body) == 0 {
